@@ -82,9 +82,7 @@ class AbstractNDArray(ABC):
     __no_flatten__ = ()
 
     def invert(self):
-        new = self.copy()
-        new._array = np.invert(new._array)
-        return new
+        return self.with_new_array(np.invert(self._array))
 
     @classmethod
     def instance_flatten(cls, instance):
